@@ -165,6 +165,7 @@ func (m *machine) registerEnvReplacements() {
 	eb := "github.com/libp2p/go-libp2p/p2p/host/eventbus."
 	for name, repl := range map[string]string{
 		eb + "NewBus":  "NewStubBus",
+		vs + "DiskHas": "diskHasModel",
 		eb + "BufSize": "BusBufSize",
 		eb + "Name":    "BusName",
 	} {
